@@ -31,7 +31,17 @@ man = {
               "baseline_off_cmd": "cd /repo && /venv/bin/python -m pytest -ra -q -p no:cacheprovider --timeout=900 --continue-on-collection-errors",
               "source_commits": [], "add_only": True},
     "engines": [
-        {"name": "E1 word enumerator", "path": "vlib/alphabets.py + checks/*.py task_* functions", "serves_properties": [c["property_id"] for c in checks], "kind_free_text": "stateless bounded-exhaustive enumeration of token words placed in every entry point, executed on the real implementation, compared with Python reference models"},
+        {"name": "E1 word enumerator", "path": "vlib/alphabets.py, vlib/sweep.py, vlib/routes.py + task_* functions of each check",
+         "serves_properties": ["C01", "C02", "C03", "C04", "C05", "C06", "C07", "C09", "C10", "C11", "C12", "C13", "C14", "C15", "C16", "C17", "C18", "C19"],
+         "kind_free_text": "stateless bounded-exhaustive enumeration of token words / matrices placed in every entry point, executed on the real implementation (both backends), compared with Python reference models (vlib/ref)"},
+        {"name": "E2 explicit-state BFS", "path": "vlib/bfs.py", "serves_properties": ["C01", "C03", "C09", "C15", "C19"],
+         "kind_free_text": "breadth-first search over reachable URL values (state = the five stored strings), 47 seeds x 90 real API calls, invariants on every produced object, shortest traces"},
+        {"name": "E3 history explorer", "path": "checks/C08.py", "serves_properties": ["C08"],
+         "kind_free_text": "all operation sequences up to depth 3 over a colliding alphabet in one long-lived process, each step compared with its cold execution"},
+        {"name": "E4 schedule explorer", "path": "vlib/sched.py", "serves_properties": ["C20"],
+         "kind_free_text": "CHESS-style preemption-bounded exploration of real threads under a sys.settrace scheduler"},
+        {"name": "E5 fault-point enumerator", "path": "vlib/faults.py, native/allochook.c", "serves_properties": ["C19"],
+         "kind_free_text": "every single PyMem allocator call inside the compiled quoter failed in turn, in a forked child, with an allocation ledger"},
     ],
     "checks": checks,
     "not_applicable": na,
